@@ -43,9 +43,9 @@ var selectors = []selector{
 }
 
 type cfg struct {
-	a, b   []int
-	sel    int
-	kind   int // 0 own resettable, 1 WrapIntSlice, 2 second input not resettable, 3 first input not resettable
+	a, b []int
+	sel  int
+	kind int // 0 own resettable, 1 WrapIntSlice, 2 second input not resettable, 3 first input not resettable
 }
 
 type sys struct {
